@@ -440,6 +440,13 @@ theorem defaults_match_source (n : Nat) :
   · have : n > 0 := Nat.pos_of_ne_zero h
     simp [h, this]
 
+/-- **newWriter_copies_options** — the deprecated constructor `NewWriter(WriterConfig)` takes every option the model
+depends on from the WriterConfig field of the same name (regenerated field by field from the Writer literal in
+NewWriter): a Writer built through it has the limits its configuration names. -/
+theorem newWriter_copies_options :
+    ∀ f ∈ ["BatchSize", "BatchBytes", "BatchTimeout", "MaxAttempts", "Async", "Topic", "Balancer", "RequiredAcks",
+      "WriteTimeout", "ReadTimeout"], Gen.newWriterMap.lookup f = some f := by decide
+
 theorem default_limits : Writer.effBatchSize 0 = 100 ∧ Writer.effBatchBytes 0 = 1048576 ∧ Writer.effMaxAttempts 0 = 10 := by
   decide
 
